@@ -248,7 +248,7 @@ var specs = map[string]*CheckSpec{
 	"C05": {
 		ID: "C05", Patterns: []string{cmdPkg}, NeedHelper: true, Instrument: true,
 		Runs: []HarnessRun{concRun("ZZ_C05", "ZZ_C05N", "ZZ_C05Desc", "", 1, 1, true, []int{0, 1, 2, 3, 4, 5, 7, 9}, []int{0, 3}),
-			thoroughOnly(onlyShapes(concRun("ZZ_C05", "ZZ_C05N", "ZZ_C05Desc", "no crash, budget 2:", 2, 2, false, nil, []int{}), []int{0, 3}), "-p2"),
+
 			concRun("ZZ_C05Fresh", "ZZ_C05FreshN", "ZZ_C05FreshDesc", "", 1, 1, true, nil, []int{1})},
 		Bounds: func(tier string) map[string]any {
 			b := concBounds("2 (thorough: also 3) concurrent writes (create on a locked account, create from world only, create whose client gives up at an arbitrary moment, a dry-run create among the real writes, set/delete metadata, revert), then stop-or-crash, restart on the same store and one more create", true)(tier)
@@ -262,7 +262,7 @@ var specs = map[string]*CheckSpec{
 	"C06": {
 		ID: "C06", Patterns: []string{cmdPkg, batchPkg}, NeedHelper: true, Instrument: true,
 		Runs: []HarnessRun{concRun("ZZ_C06", "ZZ_C06N", "ZZ_C06Desc", "", 1, 1, true, []int{0, 1, 2, 3, 6, 7, 10, 11, 14, 16, 18}, []int{0, 6}),
-			thoroughOnly(onlyShapes(concRun("ZZ_C06", "ZZ_C06N", "ZZ_C06Desc", "no crash, budget 2:", 2, 2, false, nil, []int{}), []int{0, 1}), "-p2"),
+
 			{Pkg: batchPkg, Dir: "internal/engine/utils/batching", Mod: "ledger", Fn: "ZZ_C06Batch", Shapes: rangeShapes(18), Cfg: cmdCfg, Desc: harnessDesc(batchPkg, "ZZ_C06BatchDesc", "batch composition:"), CanaryShapes: []int{3}}},
 		Bounds: func(tier string) map[string]any {
 			b := concBounds("2 (thorough: also 3) concurrent writes with distinct markers (one of them possibly abandoned by its client at an arbitrary moment), with and without an injectable InsertLogs failure", true)(tier)
